@@ -192,5 +192,15 @@ class IterChunked(Contract):
             reasons.append(z3.Not(ok(strip(X.v('chunk_size').t))))
         X.prove('raise.justified_by_the_stream', z3.Or(*reasons))
 
+    replay_prop = 'C05'
+
+    def model_to_case(self, ob, model):
+        from vlib.modelutil import as_bytes, as_int
+        wire = as_bytes(model, self.s0)
+        buff = as_int(model, self.buff)
+        if wire is None or buff is None:
+            return []
+        return [dict(kind='wire', level='iter', buff=buff, cycle=cyc, wire=wire) for cyc in ([1], [2], [], [3], [2, 1])]
+
 
 CONTRACTS = [IterChunked()]
